@@ -50,3 +50,10 @@ func FBox(next func()) { (&Box[string]{}).M(next) }
 //
 //go:noinline
 func GG[X any](x X, next func()) { GF([]X{x}, next) }
+
+// Via calls inner(next): the call site inside Via is one program counter, but the
+// callee - the frame printed just before Via's - varies with inner (a function
+// of this package, or of another one).
+//
+//go:noinline
+func Via(inner func(func()), next func()) { inner(next) }
